@@ -632,7 +632,7 @@ class ImportanceNestedSampler(BaseNestedSampler):
         elif self.iid_samples is not None:
             return self.iid_samples.samples
         else:
-            return None
+            return self.training_samples.samples
 
     @property
     def final_samples(self) -> np.ndarray:
@@ -645,7 +645,7 @@ class ImportanceNestedSampler(BaseNestedSampler):
         elif self.iid_samples is not None:
             return self.iid_samples.state
         else:
-            return None
+            return self.training_samples.state
 
     @property
     def reached_tolerance(self) -> bool:
